@@ -201,7 +201,9 @@ def collisions(binpath, res, maxlen, fields, lfields, seed):
     res.extras["signed_bytes_dictionary_entries"] = len(by_sig)
     # (b) canonical JSON injectivity on the same strings as values and keys
     texts = [json.dumps([s]) for s in strings] + [json.dumps({s: 0}) for s in strings] + \
-            [json.dumps(x) for x in (["a", "b"], ['a","b'], ["a,b"], {"a": "b"}, {'a":"b': ""}, [[]], [[], []], [{}], {}, [""], [], [0], ["0"], [None], ["null"], [True], ["true"])]
+            [json.dumps(x) for x in (["a", "b"], ['a","b'], ["a,b"], {"a": "b"}, {'a":"b': ""}, [[]], [[], []], [{}], {}, [""], [], [0], ["0"], [None], ["null"], [True], ["true"])] + \
+            ['[%s,"a"]' % n_ for n_ in NUMS] + ['[%s,"b"]' % n_ for n_ in NUMS] + ['{"a":%s,"b":"x"}' % n_ for n_ in NUMS] + \
+            ['{"a":%s,"b":"y"}' % n_ for n_ in NUMS] + ['[%s]' % n_ for n_ in NUMS] + ['[[%s],1]' % n_ for n_ in NUMS] + ['[[%s],2]' % n_ for n_ in NUMS]
     B = 2000
     cases = [{"op": "canon", "texts": texts[i:i + B]} for i in range(0, len(texts), B)]
     obs = common.run_batch(binpath, cases, keys=False)
@@ -213,7 +215,9 @@ def collisions(binpath, res, maxlen, fields, lfields, seed):
             return
         for t, r in zip(c["texts"], o["res"]):
             if "ok" in r:
-                v = json.dumps(json.loads(t), sort_keys=True)
+                # identity of a value: numbers by their exact mathematical value
+                from fractions import Fraction
+                v = json.dumps(json.loads(t, parse_float=lambda x: "#" + str(Fraction(x)), parse_int=lambda x: "#" + str(Fraction(x))), sort_keys=True)
                 prev = seen.get(r["ok"])
                 if prev is not None and prev != v:
                     res.violate("canonical-json-collision", f"two unequal JSON values share the canonical encoding {r['ok'][:100]!r}",
@@ -223,6 +227,10 @@ def collisions(binpath, res, maxlen, fields, lfields, seed):
     res.evaluations += k
     res.classes["canonical_encodings_compared"] += k
     res.extras["canonical_dictionary_entries"] = len(seen)
+
+
+NUMS = ["0", "1", "-1", "1.5", "0.1", "1e2", "100", "1.0", "-0", "0.0", "18446744073709551615", "18446744073709551616",
+        "-9223372036854775808", "-9223372036854775809", "1E400", "2.5e-3", "123456789012345678901234567890"]
 
 
 def replay(ctx, case, res):
